@@ -78,9 +78,19 @@ def build_harness(outdir, cmds, tags="verif", race=False):
     except OSError as e:
         raise Infra("cannot copy go.sum: %s" % e)
     bins = {}
+    modfile = []
+    if REPO != "/repo":
+        # development only (VERIF_REPO): build against another checkout of chess-3 through an alternative go.mod
+        alt = os.path.join(outdir, "alt.mod")
+        with open(os.path.join(HARNESS, "go.mod")) as f:
+            txt = f.read().replace("=> /repo", "=> " + REPO)
+        with open(alt, "w") as f:
+            f.write(txt)
+        shutil.copy(sumsrc, os.path.join(outdir, "alt.sum"))
+        modfile = ["-modfile=" + alt]
     for c in cmds:
         out = os.path.join(outdir, c + ("-race" if race else ""))
-        cmd = ["go", "build", "-tags", tags, "-o", out]
+        cmd = ["go", "build"] + modfile + ["-tags", tags, "-o", out]
         if race:
             cmd.append("-race")
         cmd.append("./cmd/" + c)
